@@ -151,6 +151,8 @@ class G:
                 if (inner["alias"] or inner["t"]) not in outer_names:
                     sub["where2"] = {"k": "cmp", "o": "=", "l": {"k": "col", "src": inner["alias"] or inner["t"], "name": name},
                                      "r": {"k": "col", "src": o_["alias"] or o_["t"], "name": name}}
+                    if r.random() < 0.5:  # either operand order: outer column on the left or on the right
+                        sub["where2"]["l"], sub["where2"]["r"] = sub["where2"]["r"], sub["where2"]["l"]
                     sub["where2_first"] = r.random() < 0.5
             return {"k": "insub", "l": self.expr(scope, 0, agg), "q": sub, "neg": r.random() < 0.3}
         return {"k": "cmp", "o": "=", "l": self.col(scope), "r": self.const()}
@@ -211,8 +213,10 @@ class G:
                         worder += [[{"k": "col", "src": s_["alias"] or s_["t"], "name": "id"}, "ASC"] for s_ in srcs]
                     else:
                         wn = "RANK"
+                # (aliased: the partition/order keys handed to the builder carry aliases of their own, as when one aliased
+                #  expression object is projected and reused as window key; an alias has no place inside OVER(...))
                 sel.append({"e": {"k": "win", "n": wn, "a": self.col(srcs, "int"),
-                                  "part": part, "order": worder}, "as": self.alias("w"), "window": True})
+                                  "part": part, "order": worder, "aliased": r.random() < 0.4}, "as": self.alias("w"), "window": True})
         q = {"k": "select", "from": [srcs[0]] + extra_from, "joins": joins, "select": sel, "distinct": (not grouped) and r.random() < 0.15,
              "where": self.crit(srcs, 2) if r.random() < 0.6 else None, "group": group,
              "having": ({"k": "cmp", "o": r.choice([">", ">=", "<"]), "l": {"k": "agg", "n": "COUNT", "a": {"k": "const", "v": 1}, "distinct": False},
@@ -495,9 +499,10 @@ class PB:
         if k == "win":
             n = {"ROW_NUMBER": "RowNumber", "RANK": "Rank", "SUM": "Sum", "COUNT": "Count"}[e["n"]]
             f = r["an." + n]() if e["n"] in ("ROW_NUMBER", "RANK") else r["an." + n](self.expr(e["a"], q, sel))
-            f = f.over(*[self.expr(p, q, sel) for p in e["part"]])
-            for o, d in e["order"]:
-                f = f.orderby(self.expr(o, q, sel), order=r["Order"].asc if d == "ASC" else r["Order"].desc)
+            al = (lambda t, i: t.as_("wk%d" % i)) if e.get("aliased") else (lambda t, i: t)
+            f = f.over(*[al(self.expr(p, q, sel), i) for i, p in enumerate(e["part"])])
+            for i, (o, d) in enumerate(e["order"]):
+                f = f.orderby(al(self.expr(o, q, sel), 5 + i), order=r["Order"].asc if d == "ASC" else r["Order"].desc)
             return f
         if k in ("and", "or"):
             l, rr = self.expr(e["l"], q, sel), self.expr(e["r"], q, sel)
